@@ -180,3 +180,67 @@ func TestC08Shrink(t *testing.T) {
 		}
 	}
 }
+
+// Checks 3 and 4 and the blank hints, on hand-made outputs.
+func TestC08OracleLateHints(t *testing.T) {
+	two := []string{"a.b/d", "x.y/z"}
+	refD := hist.Op{Kind: "fadd", F: 0, Code: term.S(term.Named("Var"), term.Id("_"), term.Op("="), term.Qual("a.b/d", "V0_1"))}
+	refZ := hist.Op{Kind: "fadd", F: 0, Code: term.S(term.Named("Var"), term.Id("_"), term.Op("="), term.Qual("x.y/z", "V1_2"))}
+	file := func(imports, body string) string { return "package p\n\nimport (\n" + imports + ")\n\n" + body }
+
+	// a blank hint (and a second, ordinary one) after the path was written under a name
+	blank := c08TestCase(two, refD, refZ, c08TestRender,
+		hist.Op{Kind: "importalias", F: 0, A: "a.b/d", B: "_"}, hist.Op{Kind: "importname", F: 0, A: "a.b/d", B: "kv"}, c08TestRender)
+	g := file("\td \"a.b/d\"\n\tz \"x.y/z\"\n", "var _ = d.V0_1\nvar _ = z.V1_2\n")
+	c08Want(t, blank, c08Writes(g, g), "")
+	c08Want(t, blank, c08Writes(g, file("\t_ \"a.b/d\"\n\tz \"x.y/z\"\n", "var _ = d.V0_1\nvar _ = z.V1_2\n")), "declares it as _")
+	c08Want(t, blank, c08Writes(g, file("\t_ \"a.b/d\"\n\tz \"x.y/z\"\n", "var _ = _.V0_1\nvar _ = z.V1_2\n")), "is written as _.X by operation 6")
+	c08Want(t, blank, c08Writes(g, file("\t\"a.b/d\"\n\tz \"x.y/z\"\n", "var _ = kv.V0_1\nvar _ = z.V1_2\n")), "is written as kv.X by operation 6")
+	c08Want(t, blank, c08Writes(g, file("\tkv \"a.b/d\"\n\tz \"x.y/z\"\n", "var _ = d.V0_1\nvar _ = z.V1_2\n")), "declares it as kv")
+
+	// Anon(a.b/d) + reference to x.y/z; render; reference to a.b/d; render
+	up := c08TestCase(two, hist.Op{Kind: "anon", F: 0, Strs: []string{"a.b/d", "q.r/s"}}, refZ, c08TestRender, refD, c08TestRender)
+	before := file("\t_ \"a.b/d\"\n\t_ \"q.r/s\"\n\tz \"x.y/z\"\n", "var _ = z.V1_2\n")
+	after := file("\td \"a.b/d\"\n\t_ \"q.r/s\"\n\tz \"x.y/z\"\n", "var _ = z.V1_2\nvar _ = d.V0_1\n")
+	c08Want(t, up, c08Writes(before, after), "")
+	c08Want(t, up, c08Writes(before, file("\t_ \"a.b/d\"\n\t_ \"q.r/s\"\n\tz \"x.y/z\"\n", "var _ = z.V1_2\nvar _ = d.V0_1\n")), "declares it as _")
+	c08Want(t, up, c08Writes(before, file("\td \"a.b/d\"\n\tz \"x.y/z\"\n", "var _ = z.V1_2\nvar _ = d.V0_1\n")), "no longer imports that path")
+	c08Want(t, up, c08Writes(before, file("\td \"a.b/d\"\n\ts \"q.r/s\"\n\tz \"x.y/z\"\n", "var _ = z.V1_2\nvar _ = d.V0_1\n")), "although no output has written the path")
+	c08Want(t, up, c08Writes(before, file("\td \"a.b/d\"\n\t_ \"q.r/s\"\n\tz1 \"x.y/z\"\n", "var _ = z1.V1_2\nvar _ = d.V0_1\n")), "is written as z1.X by operation 5")
+	// another line of the block is rewritten although its path is not rendered by the second output
+	up2 := c08TestCase(two, hist.Op{Kind: "anon", F: 0, Strs: []string{"a.b/d"}}, hist.Op{Kind: "rcode", F: 0, Code: refZ.Code}, c08TestRender, hist.Op{Kind: "prefix", F: 0, A: ""}, c08TestRender)
+	c08Want(t, up2, c08Writes("var _ = z.V1_2", file("\t_ \"a.b/d\"\n\tz \"x.y/z\"\n", ""), file("\t_ \"a.b/d\"\n\tz \"x.y/z\"\n", "")), "")
+	c08Want(t, up2, c08Writes("var _ = z.V1_2", file("\t_ \"a.b/d\"\n\tz \"x.y/z\"\n", ""), file("\t_ \"a.b/d\"\n\tz2 \"x.y/z\"\n", "")), "declares it as z2")
+
+	// a preamble and one new import between two File.Renders
+	pre := c08TestCase(two, refD, c08TestRender, hist.Op{Kind: "cgo", F: 0, A: "#include <a.h>\n"}, refZ, c08TestRender)
+	one := "package p\n\nimport d \"a.b/d\"\n\nvar _ = d.V0_1\n"
+	withC := "package p\n\nimport (\n\td \"a.b/d\"\n\tz \"x.y/z\"\n)\n\n/*\n#include <a.h>\n*/\nimport \"C\"\n\nvar _ = d.V0_1\nvar _ = z.V1_2\n"
+	c08Want(t, pre, c08Writes(one, withC), "")
+	c08Want(t, pre, c08Writes(one, strings.Replace(withC, "*/\nimport \"C\"", "*/\n\nimport \"C\"", 1)), "no comment directly above")
+	c08Want(t, pre, c08Writes(one, strings.Replace(withC, "/*\n#include <a.h>\n*/\nimport \"C\"\n\n", "", 1)), "the import of \"C\" is missing")
+	c08Want(t, pre, c08Writes(one, "package p\n\nimport (\n\t\"C\"\n\td \"a.b/d\"\n\tz \"x.y/z\"\n)\n\nvar _ = d.V0_1\nvar _ = z.V1_2\n"), "shares its declaration")
+	c08Want(t, pre, c08Writes(one, "package p\n\nimport z \"x.y/z\"\n\n/*\n#include <a.h>\n*/\nimport \"C\"\n\nvar _ = d.V0_1\nvar _ = z.V1_2\n"), "does not import it")
+	c08Want(t, pre, c08Writes(one, "package p\n\nimport (\n\td \"a.b/d\"\n\tz \"x.y/z\"\n)\n\n// #include <b.h>\nimport \"C\"\n\nvar _ = d.V0_1\nvar _ = z.V1_2\n"), "not the preamble in the order given")
+
+	// the stream holds on the unchanged tree and produces the three families
+	r := rand.New(rand.NewSource(8))
+	n := map[string]int{}
+	for i := 0; i < 600; i++ {
+		c := c08LateHints(r, i%3)
+		for _, tg := range c.Tags {
+			n[tg]++
+		}
+		if m := (c08{}).Oracle(c, hist.NewWorld().Exec(c.Hist)); m != "" {
+			t.Fatalf("oracle fails on the unchanged tree: %s\n%s", m, c.Hist.Sexp())
+		}
+	}
+	for _, tg := range []string{"blank-hint-after-render", "anon-upgraded-between-renders", "preamble-added-between-renders"} {
+		if n[tg] != 200 {
+			t.Errorf("%s: %d cases", tg, n[tg])
+		}
+	}
+	if n["blank-hint+other-later-hint"] == 0 || n["C-in-block-before-preamble"] == 0 || n["new-import=reference"] == 0 {
+		t.Errorf("tags: %v", n)
+	}
+}
